@@ -119,7 +119,8 @@ func (d *segmentationDescriptor) Data() []byte {
 		} else {
 			for i := range d.mid {
 				UpidData = append(UpidData, byte(d.mid[i].upidType))
-				UpidData = append(UpidData, byte(d.mid[i].upidLen))
+				// the length of the UPID as it is now: it may have been replaced through the handle MID() returned
+				UpidData = append(UpidData, byte(len(d.mid[i].upid)))
 				UpidData = append(UpidData, d.mid[i].upid...)
 			}
 		}
